@@ -366,7 +366,9 @@ def gen_class_program(rng, size="small", bad_glyphs=False):
     classes of size 0/1/many, and one-item substitution rules using them as selector/output classes."""
     prog = Prog()
     prog.nglyphs = rng.choice([16, 24, 40, 64])
-    font, glyphs, cmap = ttf.simple_font(prog.nglyphs)
+    # the same character-to-glyph mapping in one of the encodings a format-4 subtable allows: plain segments, or
+    # segments that go through the glyphIdArray with or without an idDelta on top of the array entries
+    font, glyphs, cmap = ttf.simple_font(prog.nglyphs, cmap4_arrays=random.Random(rng.random()).choice([0, 0, 1, 2, 3]))
     prog.font, prog.cmap = font, cmap
     lo, hi = 2, prog.nglyphs
     stmts = []
